@@ -45,8 +45,8 @@ P = {
  "C12": ("exploration", "enumerated media/iframe attribute product incl. sandbox subsets; forced-attribute oracle",
          "crossorigin and sandbox outcomes are checked on every emitted media/iframe tag across supplied values and sandbox subsets (all 2^14 in thorough).", "4/C12",
          "tokens are split on ASCII whitespace."),
- "C13": ("exploration", "Go race detector + concurrent-vs-sequential equality + policy fingerprint on a 64-goroutine stress",
-         "Shared policies under 64 goroutines with a tiny input set, built with -race; every concurrent result must equal the sequential one, repeated sequential calls must agree, and a reflection fingerprint of the policy must not change.", "4/C13",
+ "C13": ("exploration", "Go race detector + concurrent-vs-sequential equality on a 64-goroutine stress (cold-start calls on fresh policies, two policies at once)",
+         "Shared policies under 64 goroutines with a tiny input set, built with -race; policies that never sanitised anything are first used under contention; every concurrent result must equal the sequential one, repeated sequential calls must agree, and the baseline recomputed after the stress must be unchanged. A reflection fingerprint of the policy before/after is recorded as an observation.", "4/C13",
          "the race detector only sees executed interleavings; its shadow history is bounded."),
  "C14": ("exploration", "size ladders with deterministic allocation counts + CPU time under RLIMIT_CPU; recover()-monitored panic hunt",
          "Size-parameterised adversarial families per default CSS handler and per structural dimension, measured in allocations and CPU time in CPU-limited child processes; plus a panic hunt over the hostile generators through every entry point.", "4/C14",
